@@ -1,17 +1,49 @@
 //go:build verif
 
 // vrun runs one property check: vrun -prop C01 -tier quick -seed 1
+//
+// The check itself runs in a child process (the same binary with VERIF_CHILD=1)
+// so that a fatal runtime error inside sqlittle (SIGSEGV/SIGBUS on the memory
+// map, stack exhaustion, a panic on a goroutine the monitors do not own, a data
+// race abort) ends the child, not the verdict: the parent turns an abnormal end
+// into a VIOLATION with the crash output as the witness.
 package main
 
 import (
+	"bytes"
+	"crypto/sha1"
+	"encoding/hex"
+	"encoding/json"
 	"flag"
 	"fmt"
+	"io"
 	"os"
+	"os/exec"
+	"path/filepath"
 	"runtime/debug"
+	"strings"
+	"sync"
 
 	"verifharness/hx"
 	"verifharness/props"
 )
+
+const doneMarker = "VRUN-CHILD-DONE rc="
+
+type tail struct {
+	mu  sync.Mutex
+	buf []byte
+}
+
+func (t *tail) Write(p []byte) (int, error) {
+	t.mu.Lock()
+	t.buf = append(t.buf, p...)
+	if len(t.buf) > 256<<10 {
+		t.buf = t.buf[len(t.buf)-(128<<10):]
+	}
+	t.mu.Unlock()
+	return len(p), nil
+}
 
 func main() {
 	if len(os.Args) > 1 && os.Args[1] == "worker" {
@@ -22,8 +54,11 @@ func main() {
 	tier := flag.String("tier", "quick", "quick|thorough")
 	seed := flag.Int64("seed", 1, "PRNG seed")
 	flag.Parse()
-	spec, ok := props.Registry[*prop]
-	if !ok {
+	if os.Getenv("VERIF_CHILD") == "1" {
+		child(*prop, *tier, *seed)
+		return
+	}
+	if _, ok := props.Registry[*prop]; !ok {
 		fmt.Printf("INCONCLUSIVE property=%s unknown property\n", *prop)
 		os.Exit(2)
 	}
@@ -31,7 +66,86 @@ func main() {
 		fmt.Printf("INCONCLUSIVE property=%s unknown tier %q\n", *prop, *tier)
 		os.Exit(2)
 	}
-	run := hx.NewRun(*prop, *tier, *seed, spec.Level)
+	exe, err := os.Executable()
+	if err != nil {
+		fmt.Printf("INCONCLUSIVE property=%s cannot find own executable: %v\n", *prop, err)
+		os.Exit(2)
+	}
+	cmd := exec.Command(exe, os.Args[1:]...)
+	cmd.Env = append(os.Environ(), "VERIF_CHILD=1", "GOTRACEBACK=all")
+	var outTail, errTail tail
+	cmd.Stdout = io.MultiWriter(os.Stdout, &outTail)
+	cmd.Stderr = io.MultiWriter(os.Stderr, &errTail)
+	runErr := cmd.Run()
+	out := string(outTail.buf)
+	if i := strings.LastIndex(out, doneMarker); i >= 0 {
+		var rc int
+		fmt.Sscan(out[i+len(doneMarker):], &rc)
+		os.Exit(rc)
+	}
+	// the child ended without reaching its verdict
+	stderr := string(errTail.buf)
+	site := "unknown"
+	first := ""
+	for _, line := range strings.Split(stderr, "\n") {
+		if first == "" && (strings.HasPrefix(line, "fatal error:") || strings.HasPrefix(line, "panic:") || strings.Contains(line, "[signal ") || strings.HasPrefix(line, "unexpected fault")) {
+			first = strings.TrimSpace(line)
+		}
+		t := strings.TrimSpace(line)
+		if site == "unknown" && strings.HasPrefix(t, "github.com/alicebob/sqlittle") {
+			if j := strings.LastIndex(t, "("); j > 0 {
+				t = t[:j]
+			}
+			site = strings.TrimPrefix(strings.TrimPrefix(t, "github.com/alicebob/sqlittle"), "/")
+		}
+	}
+	if first == "" {
+		first = fmt.Sprintf("child ended abnormally: %v", runErr)
+	}
+	cls := first
+	for _, pat := range []string{"SIGBUS", "SIGSEGV", "stack overflow", "out of memory", "concurrent map", "all goroutines are asleep", "DATA RACE"} {
+		if strings.Contains(stderr, pat) {
+			cls = pat
+			break
+		}
+	}
+	key := fmt.Sprintf("%s/process-crash/%s/%s", *prop, site, strings.ReplaceAll(cls, " ", "-"))
+	known := false
+	if b, err := os.ReadFile(filepath.Join(hx.VerifDir(), "known_findings.json")); err == nil {
+		var all []hx.KnownFinding
+		if json.Unmarshal(b, &all) == nil {
+			for _, f := range all {
+				if f.Property == *prop && f.Status == "open" && f.Key == key {
+					fmt.Printf("KNOWN-FINDING: property=%s %s [%s]\n", *prop, f.What, key)
+					known = true
+				}
+			}
+		}
+	}
+	dir := filepath.Join(hx.VerifDir(), "replays", *prop)
+	os.MkdirAll(dir, 0o755)
+	sum := sha1.Sum([]byte(key))
+	rp := filepath.Join(dir, hex.EncodeToString(sum[:8])+".json")
+	b, _ := json.MarshalIndent(map[string]interface{}{"property": *prop, "tier": *tier, "seed": *seed, "key": key, "what": first,
+		"detail": map[string]interface{}{"stderr_tail": lastN(stderr, 20000), "stdout_tail": lastN(out, 4000)}}, "", " ")
+	os.WriteFile(rp, b, 0o644)
+	if known {
+		os.Exit(0)
+	}
+	fmt.Printf("VIOLATION property=%s replay=%s\n  key=%s\n  what=the checking process was killed by a fatal error inside the code under test: %s\n", *prop, rp, key, first)
+	os.Exit(1)
+}
+
+func lastN(s string, n int) string {
+	if len(s) > n {
+		return s[len(s)-n:]
+	}
+	return s
+}
+
+func child(prop, tier string, seed int64) {
+	spec := props.Registry[prop]
+	run := hx.NewRun(prop, tier, seed, spec.Level)
 	func() {
 		defer func() {
 			if r := recover(); r != nil {
@@ -41,5 +155,9 @@ func main() {
 		}()
 		spec.Fn(run)
 	}()
-	os.Exit(run.Finish())
+	rc := run.Finish()
+	var b bytes.Buffer
+	fmt.Fprintf(&b, "%s%d\n", doneMarker, rc)
+	os.Stdout.Write(b.Bytes())
+	os.Exit(rc)
 }
